@@ -598,3 +598,42 @@ Proof.
   - intros a b Ha Hb _ _ _ _ He. exact (Hf a b Ha Hb He).
   - right. intros a Ha _. exact (Hh a Ha).
 Qed.
+
+(* ------------------------------------------------------------------ *)
+(* two separate caches                                                   *)
+Lemma py_eqb_pair : forall a b c d, py_eqb (PTuple [a; b]) (PTuple [c; d]) = py_eqb a c && py_eqb b d.
+Proof. intros. rewrite py_eqb_tuple. unfold pylist_eqb. cbn [list_eqb]. rewrite andb_true_r. reflexivity. Qed.
+
+(* if the two functions use different dicts, the combined machine is transparent as soon as each
+   cache on its own separates the calls that go through it *)
+Theorem two_caches_transparent :
+  forall (R : Type) (tag : ckind -> pyval) e kx fb (compute : ckind * ncall -> R) (cs : list (ckind * ncall)),
+  py_eqb (tag KPathCall) (tag KExprCall) = false -> py_eqb (tag KExprCall) (tag KPathCall) = false ->
+  (forall c1 c2, In c1 cs -> In c2 cs -> fst c1 = fst c2 -> two_use c1 = true -> two_use c2 = true ->
+     py_eqb (nc_dkey e (kx (fst c1)) (snd c1)) (nc_dkey e (kx (fst c2)) (snd c2)) = true ->
+     compute c1 = compute c2) ->
+  (fb = true \/ forall c, In c cs -> two_use c = true -> two_keyok kx c = true) ->
+  cached_outputs (two_dkey tag e kx) two_use (two_keyok kx) fb compute cs = plain_outputs compute cs.
+Proof.
+  intros R tag e kx fb compute cs Hpe Hep Hsame Hnr. apply cache_transparent; [|exact Hnr].
+  intros c1 c2 H1 H2 Hu1 Hu2 _ _ He. unfold two_dkey in He. rewrite py_eqb_pair in He.
+  apply andb_true_iff in He. destruct He as [Ht Hk].
+  destruct c1 as [k1 n1], c2 as [k2 n2]. cbn [fst snd] in *.
+  destruct k1, k2; try (rewrite Hpe in Ht; discriminate); try (rewrite Hep in Ht; discriminate);
+    apply (Hsame _ _ H1 H2 eq_refl Hu1 Hu2 Hk).
+Qed.
+
+(* one shared dict: a path request and an option-free expression request for the same contraction
+   build the same key, and the second receives the first's object *)
+Theorem merged_caches_visible :
+  forall (R : Type) (t : pyval) e k fb (compute : ckind * ncall -> R) (n : ncall),
+  nc_use n = true -> nc_keyok k n = true -> py_eqb t t = true ->
+  py_eqb (nc_dkey e k n) (nc_dkey e k n) = true ->
+  cached_outputs (two_dkey (fun _ => t) e (fun _ => k)) two_use (two_keyok (fun _ => k)) fb compute
+                 [(KPathCall, n); (KExprCall, n)]
+  = [Some (compute (KPathCall, n)); Some (compute (KPathCall, n))].
+Proof.
+  intros R t e k fb compute n Hu Hk Ht He.
+  apply collision_visible; try assumption.
+  unfold two_dkey. rewrite py_eqb_pair. cbn [fst snd]. rewrite Ht, He. reflexivity.
+Qed.
